@@ -13,5 +13,7 @@ mkdir -p harness/bin .work evidence replays
 mkdir -p lean/P2PVerif/Gen
 ./harness/bin/extract -repo "$REPO" > lean/P2PVerif/Gen/Facts.lean.new
 if ! cmp -s lean/P2PVerif/Gen/Facts.lean.new lean/P2PVerif/Gen/Facts.lean 2>/dev/null; then mv lean/P2PVerif/Gen/Facts.lean.new lean/P2PVerif/Gen/Facts.lean; else rm lean/P2PVerif/Gen/Facts.lean.new; fi
+./harness/bin/go2lean -repo "$REPO" -o lean/P2PVerif/Gen/Src.lean.new
+if ! cmp -s lean/P2PVerif/Gen/Src.lean.new lean/P2PVerif/Gen/Src.lean 2>/dev/null; then mv lean/P2PVerif/Gen/Src.lean.new lean/P2PVerif/Gen/Src.lean; else rm lean/P2PVerif/Gen/Src.lean.new; fi
 (cd lean && lake build)
 echo setup-ok
